@@ -224,7 +224,8 @@ func (c *Config) SaveManifest(dbPath string) error {
 		return fmt.Errorf("failed to marshal config: %w", err)
 	}
 
-	if err := os.WriteFile(tempPath, data, 0644); err != nil {
+	if err := writeFileSync(tempPath, data); err != nil {
+		os.Remove(tempPath)
 		return fmt.Errorf("failed to write manifest: %w", err)
 	}
 
@@ -233,6 +234,29 @@ func (c *Config) SaveManifest(dbPath string) error {
 	}
 
 	return nil
+}
+
+// writeFileSync writes data to a new file and forces it to stable storage
+// before returning. The manifest is replaced by renaming such a file over it:
+// without the sync a power failure shortly after the rename can leave a
+// manifest that is empty or cut, and with it a database that no longer opens.
+func writeFileSync(path string, data []byte) error {
+	file, err := os.OpenFile(path, os.O_WRONLY|os.O_CREATE|os.O_TRUNC, 0644)
+	if err != nil {
+		return err
+	}
+
+	if _, err := file.Write(data); err != nil {
+		file.Close()
+		return err
+	}
+
+	if err := file.Sync(); err != nil {
+		file.Close()
+		return err
+	}
+
+	return file.Close()
 }
 
 // Update applies the given function to modify the configuration
